@@ -40,6 +40,12 @@ CLAIMED = {
  'C12': dict(
   text="For every sequence of up to 3-4 comments drawn from templates with 0-2 tag events each (tags on first or later comment lines, end tags also in the `</ block >` spelling), with symbolic comment geometry, the MIR of parse_blocks_from_comments / PartialBlocksIterator::next returns Err exactly when the running depth dips below 0 or ends above 0; and through parse_file / parse_blocks, with a damaged file among two healthy ones in scan and in diff mode and several map orders, the run returns Err whose context names the damaged file.",
   note="Stubs: the winnow tag scanner (event list per comment), tree-sitter (Comment values), FileSystem / PathChecker / grammar lookup. That a damaged tag in real text yields those events is outside (C05 not applicable)."),
+ 'C11': dict(
+  text="On the MIR of main::process_violations: for every assignment of severities (symbolic) to up to N violations over up to 3 files and every map order, process::exit(1) is reached iff some severity is Error, and the map handed to the JSON writer holds every violation exactly once under its file. On validators::run / run_sync_validators with 2-3 model validators reporting on symbolic subsets of files or failing: the merged map is the disjoint union, any failure is a failure of the run. Block::severity accepts exactly error|warning|info|hint in any letter case (every attribute string up to N bytes), default Error.",
+  note="Threads are modelled as a sequential schedule. Outside: the async half of run (tokio), the JSON text layout, `list`, stdout/stderr plumbing (recording stubs)."),
+ 'C14': dict(
+  text="On the MIR of detect_validators, the seven detect impls and the DETECTOR_FACTORIES table: for blocks carrying every subset of a task's three validators' attributes (symbolic), every subset of those names in -d or in -e (symbolic membership), 1-3 blocks over 1-2 files and several map orders, the instantiated validators are exactly those allowed and needed, each once, filed as sync/async correctly. parse_validator accepts exactly the seven names (every string up to 12-13 bytes over their letters); Args::validate rejects -d together with -e.",
+  note="Triples of validators instead of all seven at once (all 35 triples in the thorough tier). clap is not encoded; OpenAiClient::new_from_env is a stub; that each validator emits only its own code is asserted in C06-C10."),
 }
 
 NOT_APPLICABLE = {
